@@ -598,8 +598,8 @@ func runC08(r *lib.Run) {
 		"distinct = (operation, crash-point class, mode before, mode after, size class)")
 	r.Assume("process kill only (no power loss): an image is the set of files as visible to the OS at that instant")
 	r.Assume("entries indexed at the crash instant were acknowledged before it (commit precedes the reply)")
-	nCases := r.N(42, 910)
-	nKills := r.N(8, 200)
+	nCases := r.N(42, 560)
+	nKills := r.N(8, 120)
 	rng := r.Rng("c08")
 	hc := lib.NewHookCtl(uint64(r.Seed))
 	hc.Install()
